@@ -5,6 +5,8 @@ Rust loop imposes on the events it can log (additions only; `Model/Builder.lean`
 * c1T — `Topo s` comes from `OnlineToposort::next`: a state is emitted at most once and only
   when all its current predecessors have been emitted (properties `c15_once`,
   `c15_after_preds` of the toposort model; ids of emitted states stay in `visited` for ever).
+* c1C — the loop runs until the toposort is exhausted: when the log ends, every live state has
+  been emitted (a truncated log is not a log of the Rust loop).
 * c4T — `Merge(node, set)` comes from `find_mergeable_nodes(node)`: every member of the set is
   `node` itself or another parent of `node`'s first child (`all_transitions(node).next()`).
 
@@ -81,11 +83,14 @@ def iterationWith (det : Automaton K P → Nat → R (Automaton K P))
             if s' = s then .ok (a, evs) else .error (.guard "IterEnd for another state")
           | .ok _ => .error (.guard "missing IterEnd event")
 
-/-- The main loop with the toposort discipline: `emitted` lists the states emitted so far. -/
+/-- The main loop with the toposort discipline: `emitted` lists the states emitted so far;
+at the end of the log every live state must have been emitted (c1C). -/
 def mainLoopWith (det : Automaton K P → Nat → R (Automaton K P))
     (toTree : List (Cons K P) → Option (CTree (Cons K P))) (fuel : Nat) :
     Nat → Automaton K P → List Nat → List Ev → R (Automaton K P)
-  | _, a, _, [] => .ok a
+  | _, a, emitted, [] =>
+    if a.g.nodeIndices.all emitted.contains then .ok a
+    else .error (.guard "c1C: the log ends although a live state was never emitted")
   | 0, _, _, _ :: _ => .error (.fuel "main loop")
   | n + 1, a, emitted, .topo s :: evs =>
     if !a.topoAdmissible emitted s then
